@@ -167,7 +167,7 @@ pub fn gen_challenge(s: &mut Src, unicode_names: bool) -> Challenge {
         info.reverse();
     }
     let tn = s.below(17);
-    Challenge { flags, server_challenge: s.bytes(8), target_name: s.fill(tn * 2), target_info: info, version: vec![6, 1, 0xB1, 0x1D, 0, 0, 0, 15], payload_order: s.below(2) as u8, gap: s.pick(&[0u8, 0, 0, 1, 4, 8]) }
+    Challenge { flags, server_challenge: s.bytes(8), target_name: s.fill(tn * 2), target_info: info, version: vec![6, 1, 0xB1, 0x1D, 0, 0, 0, 15], payload_order: s.below(2) as u8, gap: s.pick(&[0u8, 0, 0, 1, 4, 8]), max_len_delta: s.pick(&[0u16, 0, 0, 1, 2, 8, 100]) }
 }
 
 pub fn decode(s: &mut Src) -> Case {
